@@ -46,6 +46,7 @@ CBMC_NOMEM = ["--no-bounds-check", "--no-pointer-check"]
 
 ENV = dict(os.environ)
 ENV.update({"CARGO_NET_OFFLINE": "true", "CARGO_TERM_COLOR": "never"})
+ENV.setdefault("VERIF_SEED", "0")
 
 
 _LOG_LOCK = threading.Lock()
@@ -619,10 +620,11 @@ def git_head(path):
         return "?"
 
 
-def check(pid, plan, tier, only=None, seed=0):
+def check(pid, plan, tier, only=None, seed=0, evidence=True):
     """Run all instances of property `pid` for `tier`. Returns exit code."""
     t0 = time.time()
-    workdir = os.path.join(WORK, "%s-%s%s" % (pid, tier, ("-" + re.sub(r"[^A-Za-z0-9_]", "_", only)) if only else ""))
+    workdir = os.path.join(WORK, "%s-%s%s%s" % (pid, tier, ("-" + re.sub(r"[^A-Za-z0-9_]", "_", only)) if only else "",
+                                                  "" if evidence else "-gate"))
     shutil.rmtree(workdir, ignore_errors=True)
     os.makedirs(workdir)
     os.makedirs(EVID, exist_ok=True)
@@ -710,7 +712,7 @@ def check(pid, plan, tier, only=None, seed=0):
         exit_code = 1
     elif inconclusive or prereq_fail or build_err or not results:
         exit_code = 2
-    evdir = EVID if (only is None and tier in ("quick", "thorough")) else workdir  # partial/debug runs never touch evidence/
+    evdir = EVID if (evidence and only is None and tier in ("quick", "thorough")) else workdir  # partial/debug runs never touch evidence/
     write_evidence(pid, plan, tier, seed, results, violations, inconclusive, known_hits, time.time() - t0,
                    prereq_fail or build_err, evdir)
     log("[done] %s tier=%s: %d instances, %d discharged, %d violations, %d known, %d inconclusive, %.0fs -> exit %d" % (
